@@ -82,3 +82,8 @@ reg('C12', 'model_checking', 'H + T (history explorer + call-tree enumerator)', 
     'Register/unregister histories over six callbacks are explored to the fixpoint of the slot assignment and in every state every registered callback is invoked from guest code with boundary values; all call trees of depth <= 3 / width <= 2 over two sandboxes are executed and the application-side log (function, sandbox reference, arguments) and the guest-side results are compared with a pure walk of the tree; six configurations (mbox lp32/wide, noop and dylib x library/embedder TLS).',
     'Depth/width bounded; bundled backends are exercised at 63/64 table occupancy rather than through full histories.',
     'DESIGN.md section 3, C12')
+
+reg('C11', 'model_checking', 'G + X + H (generated signature family + history explorer)', 'exhaustive enumeration of a generated signature family x argument forms x boundary values with guest-side recording + BFS over instance/library histories',
+    'About 580 (quick) / 1700 (thorough) generated signatures over 20 parameter kinds are invoked under two foreign ABIs with every argument form and boundary value; guest code written against an independent ABI table records the raw bits it receives, the call count and the executing instance; results are driven from the guest with boundary bit patterns. Histories over three instances bound to two libraries exporting the same names (mbox by-name, dylib) check that names resolve per instance and per incarnation and that function addresses are stable and pass back faithfully.',
+    'Signature shapes beyond two parameters by rotation; the generator\'s ABI table and reference struct images are hand-written; history depth 5/6.',
+    'DESIGN.md section 3, C11')
